@@ -53,6 +53,26 @@ BUILT["C05"] = (
     "Trusts the independent renderer; more than one custom section and deviations beyond the bound are not covered.",
 )
 
+BUILT["C06"] = (
+    "exploration",
+    "exhaustive enumeration of NULL value x spellings x all 4^6 placements of NULL/near-NULL/ordinary cells x engine x null_policy x wrap x text column, then write->read",
+    "For every placement of NULL-equal (two spellings), near-NULL and ordinary tokens over six cells (index column "
+    "included), every NULL value/spelling, engine, null_policy in {strict, none}, wrapped or not, with or without a text "
+    "column: NaN appears exactly at the non-index NULL-equal cells under strict and nowhere under none, other cells keep "
+    "their value, text cells are untouched, and after write()+read() the NaN mask is identical.",
+    "Trusts the renderer and float(token) as the expected value; NULL values outside the six listed and other null policies are not covered.",
+)
+BUILT["C09"] = (
+    "exploration",
+    "metamorphic exhaustive enumeration: every presentation-only transformation at every applicable site of every base file (generated family + example corpus), canonical results compared",
+    "canon(read(T(x))) == canon(read(x)) (strict, both engines) for T in {blank/comment insertion at each line boundary of "
+    "header-items and data sections, each whitespace run / pad position changed, trailing/leading blanks per line, CRLF, "
+    "no final newline, every re-wrap of wrapped depth steps, re-delimiting with SPACE/TAB/COMMA and padding} applied one "
+    "site at a time and all sites at once; thorough adds all pairs of single-site text transformations on a reduced "
+    "family and per-site transformations of every corpus file <= 300 lines.",
+    "Trusts the line classifier that decides where noise may be inserted (not inside ~O) and the generated family's renderer; compositions of more than two transformations are not covered.",
+)
+
 PENDING_REASON = "check not built yet in this round (design in DESIGN.md section 3); nothing is claimed for it"
 
 
